@@ -79,6 +79,7 @@ func serveGuarded(h http.Handler, req *http.Request) fuzzRes {
 			}
 		}()
 		h.ServeHTTP(rec, req)
+		noteContentLength(req.Method, req.URL.String(), rec)
 		full := rec.Body.String()
 		b := full
 		if len(b) > 200 {
@@ -283,6 +284,7 @@ func genC08(c *Ctx) {
 	nReq += c08Receiver(c)
 	nReq += c08Ingest(c)
 	nReq += c08Limited(c)
+	c16StepRaces(c, getServer()) // API requests racing with the end of an ingest session must return
 	// ---- cfg op: URL configuration parser vs. the Lean model ----
 	intVals := []string{"0", "1", "-1", "2", "3", "4", "60", "900", "3600", "3601", "172800", "172801", "68719476736", "68719476737", "-68719476737",
 		"9223372036854775807", "9223372036854775808", "-9223372036854775808", "-9223372036854775809", "007", "-0", "x", "", "1.5", "1e3", "0x10", "1_0", "--1", "-", " 1", "1 "}
